@@ -43,6 +43,11 @@ type Check struct {
 	findings  []knownFinding
 	violKeys  map[string]bool
 	maxReplay int
+	shardK    int // this process handles shard shardK of shardN (child mode), default 0/1
+	shardN    int
+	partial   string // child mode: write partial results here instead of evidence
+	violLog   []map[string]interface{}
+	distKeys  bool
 }
 
 type knownFinding struct {
@@ -69,6 +74,11 @@ func NewCheck(id, tier, level string) *Check {
 		}
 	}
 	c.deadline = c.start.Add(budget)
+	c.shardN = 1
+	if s := argVal("--shard", ""); s != "" {
+		fmt.Sscanf(s, "%d/%d", &c.shardK, &c.shardN)
+		c.partial = argVal("--partial", "")
+	}
 	data, err := os.ReadFile(filepath.Join(verifRoot, "known_findings.json"))
 	if err == nil {
 		var all []knownFinding
@@ -150,6 +160,14 @@ func (c *Check) Violation(key string, payload map[string]interface{}) {
 		return
 	}
 	c.violKeys[key] = true
+	if c.partial != "" {
+		payload["key"] = key
+		if len(c.violLog) < 200 {
+			c.violLog = append(c.violLog, payload)
+		}
+		c.viol++
+		return
+	}
 	c.viol++
 	if p := os.Getenv("VERIF_DUMP"); p != "" {
 		if f, err := os.OpenFile(p, os.O_APPEND|os.O_CREATE|os.O_WRONLY, 0o644); err == nil {
@@ -243,6 +261,9 @@ func NumWorkers() int {
 // ascending), stopping early only at the deadline. Returns number evaluated.
 func (c *Check) ForEach(n uint64, fn func(w int, i uint64)) uint64 {
 	W := NumWorkers()
+	if c.shardN > 1 {
+		return c.forEachShard(n, fn)
+	}
 	var done uint64
 	var wg sync.WaitGroup
 	for w := 0; w < W; w++ {
@@ -310,4 +331,78 @@ func argVal(name, def string) string {
 		}
 	}
 	return def
+}
+
+// forEachShard: child-process mode; a single goroutine handles indices i with i % shardN == shardK.
+func (c *Check) forEachShard(n uint64, fn func(w int, i uint64)) uint64 {
+	var done uint64
+	cnt := 0
+	for i := uint64(c.shardK); i < n; i += uint64(c.shardN) {
+		if cnt&63 == 0 && c.Expired() {
+			break
+		}
+		cnt++
+		fn(0, i)
+		done++
+	}
+	return done
+}
+
+type partialResult struct {
+	Evals    uint64                   `json:"evals"`
+	Sub      map[string]uint64        `json:"sub"`
+	Distinct []string                 `json:"distinct"`
+	Viol     []map[string]interface{} `json:"viol"`
+	Capped   bool                     `json:"capped"`
+	Extra    map[string]interface{}   `json:"extra"`
+}
+
+// FinishPartial (child mode) writes the shard's results for the parent to merge.
+func (c *Check) FinishPartial() {
+	c.mu.Lock()
+	defer c.mu.Unlock()
+	p := partialResult{Evals: c.evals, Sub: c.sub, Viol: c.violLog, Capped: c.capped, Extra: c.extra}
+	for k := range c.distinct {
+		p.Distinct = append(p.Distinct, hex.EncodeToString(k[:]))
+	}
+	data, _ := json.Marshal(p)
+	os.WriteFile(c.partial, data, 0o644)
+}
+
+// MergePartial (parent) folds a child's results in.
+func (c *Check) MergePartial(path string) bool {
+	data, err := os.ReadFile(path)
+	if err != nil {
+		return false
+	}
+	var p partialResult
+	if json.Unmarshal(data, &p) != nil {
+		return false
+	}
+	c.Eval(p.Evals)
+	for k, v := range p.Sub {
+		c.Sub(k, v)
+	}
+	c.mu.Lock()
+	for _, d := range p.Distinct {
+		var k [16]byte
+		b, _ := hex.DecodeString(d)
+		copy(k[:], b)
+		c.distinct[k] = struct{}{}
+	}
+	if p.Capped {
+		c.capped = true
+		c.Exhaust = false
+	}
+	for k, v := range p.Extra {
+		if _, ok := c.extra[k]; !ok {
+			c.extra[k] = v
+		}
+	}
+	c.mu.Unlock()
+	for _, v := range p.Viol {
+		key, _ := v["key"].(string)
+		c.Violation(key, v)
+	}
+	return true
 }
